@@ -650,6 +650,12 @@ pub struct World {
     /// the most recent frames: part of the canonical state, so that anything the driver might
     /// remember about "the previous frame" keeps states apart)
     pub last_emitted: (i64, i64),
+    /// the malformed-result fault hit a search whose caller was blocked in the stream without a
+    /// timeout: the driver itself has to decode that frame, cannot, and the connection is over
+    pub bad_tail_kills: bool,
+    /// per search marker: how many of its frames the driver had read when an Abandon naming it
+    /// was acknowledged to its caller (nothing beyond them may be handed out any more)
+    pub abandon_acked: BTreeMap<String, usize>,
 }
 
 /// the ID table through the probe handle; (-1, []) if the table's mutex is poisoned (a panic
@@ -716,6 +722,8 @@ impl World {
             injected: false,
             cancelled_markers: BTreeSet::new(),
             last_emitted: (-1, -1),
+            bad_tail_kills: false,
+            abandon_acked: BTreeMap::new(),
             scn,
         }
     }
@@ -771,7 +779,7 @@ impl World {
             }
         }
         let io = self.io.lock().unwrap();
-        let link_up = !io.eof && !io.read_err && self.fault_done.map_or(true, |f| !matches!(f.0, FaultKind::Eof | FaultKind::Reset | FaultKind::Garbage | FaultKind::ShortGarbage | FaultKind::InnerOverrun));
+        let link_up = !io.eof && !io.read_err && self.fault_done.map_or(true, |f| !matches!(f.0, FaultKind::Eof | FaultKind::Reset | FaultKind::Garbage | FaultKind::ShortGarbage | FaultKind::InnerOverrun | FaultKind::WideId));
         if link_up {
             for r in &self.server.reqs {
                 if self.srv_can_answer(r) {
@@ -914,6 +922,25 @@ impl World {
                         io.staged.clear();
                         io.deliver(&[0x30, 0x00]);
                     }
+                    FaultKind::WideId => {
+                        if !io.staged.is_empty() {
+                            self.emitted = self.routed.iter().map(|(k, v)| (*k, v.0)).collect();
+                        }
+                        io.staged.clear();
+                        let (id, op) = match self.server.reqs.iter().find(|r| !r.done && !r.abandoned && matches!(r.kind, RK::Single(_) | RK::Search)) {
+                            Some(r) => (
+                                r.id,
+                                match r.kind {
+                                    RK::Single(tag) => single_resp(tag, Res::new(0, "id=wide", "for-nobody"), "for-nobody", false),
+                                    _ => Op::SearchDone(Res::new(0, "id=wide", "for-nobody")),
+                                },
+                            ),
+                            None => (1, single_resp(1, Res::new(0, "id=wide", "for-nobody"), "for-nobody", false)),
+                        };
+                        let idb = (id as u32).to_be_bytes();
+                        let t = Tlv::seq(vec![Tlv::prim(ber::UNI, 2, vec![1, idb[0], idb[1], idb[2], idb[3]]), crate::vcore::msg::op_tlv(&op)]);
+                        io.deliver(&ber::encode(&t));
+                    }
                     FaultKind::InnerOverrun => {
                         if !io.staged.is_empty() {
                             self.emitted = self.routed.iter().map(|(k, v)| (*k, v.0)).collect();
@@ -922,7 +949,22 @@ impl World {
                         io.deliver(&[0x30, 0x0c, 0x02, 0x01, 0x02, 0x61, 0x0a, 0x0a, 0x01, 0x00, 0x04, 0x00, 0x04, 0x00]);
                     }
                     FaultKind::BadResultTail => {
+                        let blocked_in: Vec<String> = if self.scn.cancellable.is_empty() {
+                            self.clients
+                                .iter()
+                                .filter(|c| c.task.is_some() && self.cur_timeout(c).is_none())
+                                .filter_map(|c| match &c.cur {
+                                    Some((Call::Next, _)) if c.has_stream && !c.stream_closed => Some(c.sm.marker.clone()),
+                                    Some((Call::Search { marker, .. }, _)) => Some(marker.clone()),
+                                    _ => None,
+                                })
+                                .collect()
+                        } else {
+                            vec![]
+                        };
+                        let mut kills = false;
                         if let Some(r) = self.server.reqs.iter_mut().find(|r| !r.done && !r.abandoned && matches!(r.kind, RK::Single(_) | RK::Search)) {
+                            kills = r.kind == RK::Search && blocked_in.contains(&r.marker);
                             // (this is the server's answer to that request: nothing more follows)
                             r.done = true;
                             let tag = match r.kind {
@@ -941,6 +983,7 @@ impl World {
                             let msg = Tlv::seq(vec![Tlv::int(r.id), Tlv::cons(ber::APP, tag, body)]);
                             io.deliver(&ber::encode(&msg));
                         }
+                        self.bad_tail_kills = kills;
                     }
                     FaultKind::WriteErr => {
                         io.wmode = WMode::Err;
@@ -1789,6 +1832,10 @@ impl World {
                 }
             }
             Call::Abandon(_) | Call::Unbind | Call::DropHandle => {
+                if let (Call::Abandon(AbTarget::Marker(m)), Ret::Unit) = (call, &obs.ret) {
+                    let n = self.routed_frames(m);
+                    self.abandon_acked.entry(m.clone()).or_insert(n);
+                }
                 if let Ret::Err(k, m) = &obs.ret {
                     if k != "PANIC" && !faulted {
                         self.v(&format!("call:unexpected-error:{}", k), format!("client {} {} failed without any fault: {}", i, obs.call, m));
@@ -1934,6 +1981,15 @@ impl World {
                 let want = script.get(pos).cloned();
                 match (got, want) {
                     (Some(g), Some((k, label))) => {
+                        if let Some(n) = self.abandon_acked.get(&sm.marker) {
+                            let paged = matches!(sm.chain, Some(Chain::Paged(_)) | Some(Chain::EntriesPaged(_)) | Some(Chain::PagedEntries(_)));
+                            if self.scn.oracles.route && !paged && pos >= *n {
+                                self.v(
+                                    "route:item-after-abandon",
+                                    format!("client {} next() handed out item #{} ({:?}) of a search whose Abandon had been acknowledged when the driver had read {} of its frames", i, pos, g.label, n),
+                                );
+                            }
+                        }
                         if g.kind != k || g.label != label {
                             self.v("stream:item-order", format!("client {} next() returned {:?} {:?}, server's next item is {:?} {:?}", i, g.kind, g.label, k, label));
                         }
@@ -2259,7 +2315,7 @@ impl World {
                 let io = self.io.lock().unwrap();
                 (io.write_errors, io.eof || io.read_err)
             };
-            let failure_observable = rd_fault || self.fault_done.map_or(false, |f| matches!(f.0, FaultKind::ShortGarbage | FaultKind::InnerOverrun)) || werrs > 0 || self.server.saw_unbind || self.dropped_all || !self.driver_alive();
+            let failure_observable = rd_fault || self.bad_tail_kills || self.fault_done.map_or(false, |f| matches!(f.0, FaultKind::ShortGarbage | FaultKind::InnerOverrun | FaultKind::WideId)) || werrs > 0 || self.server.saw_unbind || self.dropped_all || !self.driver_alive();
             for (i, call) in pend {
                 if !failure_observable && self.cur_marker(i).map_or(false, |m| self.plan(&m).silent) {
                     continue; // a silent server and a healthy connection: waiting is correct
@@ -2274,7 +2330,8 @@ impl World {
                 let kind = self.clients[i].cur.as_ref().map(|c| call_kind(&c.0)).unwrap_or("?");
                 self.v(&format!("term:hang:{}:{}", kind, why), format!("nothing can happen any more but client {} is still waiting in {}", i, call));
             }
-            let conn_over = self.fault_done.map_or(false, |f| matches!(f.0, FaultKind::Eof | FaultKind::Reset | FaultKind::Garbage | FaultKind::ShortGarbage | FaultKind::InnerOverrun))
+            let conn_over = self.fault_done.map_or(false, |f| matches!(f.0, FaultKind::Eof | FaultKind::Reset | FaultKind::Garbage | FaultKind::ShortGarbage | FaultKind::InnerOverrun | FaultKind::WideId))
+                || self.bad_tail_kills
                 || self.server.saw_unbind
                 || self.dropped_all;
             // (a server that never closes after an unbind is outside the fairness assumption:
@@ -2384,6 +2441,7 @@ impl World {
             self.injected
         );
         let _ = write!(s, "RT{:?}U{:?}X{:?}L{:?}", self.routed, self.timed_out_unsent, self.cancelled_markers, self.last_emitted);
+        let _ = write!(s, "BK{}AA{:?}", self.bad_tail_kills as u8, self.abandon_acked);
         s
     }
 
